@@ -402,6 +402,16 @@ func init() {
 			fr.i.ex.Reach(concreteString(args[0]))
 			return nil
 		},
+		"symShare": func(fr *frame, args []value) value {
+			// everything reachable from the argument may be shared between concurrent calls (C18): the
+			// ownership monitor, which must be installed already, treats a write to it like a write to a
+			// package-level object
+			if fr.i.ownShare == nil {
+				unsupported("symShare without an ownership monitor")
+			}
+			fr.i.ownShare(args[0])
+			return nil
+		},
 		"symFreshProcess": func(fr *frame, args []value) value {
 			fr.i.fresh()
 			return nil
@@ -815,6 +825,29 @@ func installOwnership(i *interpreter, poolBudget int) {
 			walk(*cell, 0)
 		}
 	}
+	// objects handed over with symShare (values held by Option values the caller may pass to several calls)
+	optObj := map[*value]bool{}
+	optMaps := map[*omap]bool{}
+	i.ownShare = func(v value) {
+		before, beforeM := map[*value]bool{}, map[*omap]bool{}
+		for k := range shared {
+			before[k] = true
+		}
+		for k := range sharedMaps {
+			beforeM[k] = true
+		}
+		walk(v, 0)
+		for k := range shared {
+			if !before[k] {
+				optObj[k] = true
+			}
+		}
+		for k := range sharedMaps {
+			if !beforeM[k] {
+				optMaps[k] = true
+			}
+		}
+	}
 	released := map[*omap]bool{}
 	ex := i.ex
 	fail := func(fr *frame, msg string) {
@@ -825,11 +858,17 @@ func installOwnership(i *interpreter, poolBudget int) {
 		onEnter: func(fr *frame, fn *ssa.Function, args []value) {},
 		onExit:  func(fr *frame, fn *ssa.Function) {},
 		onStore: func(fr *frame, addr *value) {
+			if optObj[addr] {
+				fail(fr, "a value held by an Option is written during Parse (the same Option value may be passed to concurrent calls)")
+			}
 			if shared[addr] {
 				fail(fr, "a package-level object is written during Parse")
 			}
 		},
 		onMapWrite: func(fr *frame, m *omap) {
+			if optMaps[m] {
+				fail(fr, "a map held by an Option is written during Parse (the same Option value may be passed to concurrent calls)")
+			}
 			if sharedMaps[m] {
 				fail(fr, "a package-level map is written during Parse")
 			}
